@@ -265,8 +265,23 @@ def run(chk: Check, repo: Repo) -> None:
     chk.floor("decrypted fields", n_fields, 7)
     dk = repo.func(M, "Keyring.decrypt")
     chk.unit(dk)
-    src = ast.unparse(dk.node)
-    ok = "hashed_password = hash_keyring_password(password.encode('utf-8'))" in src and "initialization_vector = sha256_hash(self.created.encode('utf-8'))[:16]" in src and "chain(self.interfaces, self.group_addresses, self.devices)" in src and "self.backbone.decrypt_attributes(hashed_password, initialization_vector)" in src and "xml_element.decrypt_attributes(hashed_password, initialization_vector)" in src
+    # every decrypt_attributes call below gets (key, iv) = (hash_keyring_password(<password>.encode('utf-8')),
+    # sha256_hash(self.created.encode('utf-8'))[:16]) — locals inlined, so their names do not matter — and the calls cover
+    # the three element lists (through one loop over their chain / concatenation, or one loop each) and the backbone
+    pw = dk.node.args.args[1].arg
+    want_args = [f"hash_keyring_password({pw}.encode('utf-8'))", "sha256_hash(self.created.encode('utf-8'))[:16]"]
+    dcalls = [c for c in calls(dk.node) if isinstance(c.func, ast.Attribute) and c.func.attr == "decrypt_attributes"]
+    args_ok = bool(dcalls) and all([ast.unparse(inline_locals(dk.node, a)) for a in c.args] + [ast.unparse(inline_locals(dk.node, k.value)) for k in c.keywords] == want_args for c in dcalls)
+    covered: set[str] = set()
+    for c in dcalls:
+        recv = c.func.value
+        if isinstance(recv, ast.Name):
+            for lp in walk_local(dk.node):
+                if isinstance(lp, (ast.For,)) and isinstance(lp.target, ast.Name) and lp.target.id == recv.id and any(x is c for b in lp.body for x in ast.walk(b)):
+                    covered |= {ast.unparse(x) for x in ast.walk(lp.iter) if isinstance(x, ast.Attribute) and isinstance(x.value, ast.Name) and x.value.id == "self"}
+        else:
+            covered.add(ast.unparse(recv))
+    ok = args_ok and {"self.interfaces", "self.group_addresses", "self.devices", "self.backbone"} <= covered
     chk.ob("every-element-is-decrypted-with-the-derived-key", dk.site(), ok, "Keyring.decrypt derives key and IV from password / created and visits interfaces, group addresses, devices, backbone", key="decrypt|driver")
     gk = repo.func(M, "Keyring.get_data_secure_group_keys")
     chk.ob("getters-return-decrypted-values", gk.site(), "group_address.decrypted_key" in ast.unparse(gk.node) and ".key" not in ast.unparse(gk.node).replace("decrypted_key", ""), "get_data_secure_group_keys reads decrypted_key only", key="getter|group-keys")
